@@ -233,9 +233,9 @@ From Texel.Gen Require Import CleanupRingGen.
 (** ** tie G2 (loops): cleanupNewRing REGENERATED from snap.go on this run (gen/CleanupRingGen.v) is the model's, for
     every ring: the closing vertex dropped before spike removal, the loop that drops it again afterwards (fix ffc0f16;
     the model's structural [trimClosing], the generated loop on fuel len + 1), both exits for fewer than 3 vertices.
-    It calls the REGENERATED kmpDeduplicate and asPointOrLine.  [splitRing] is the MODEL's function, with the
-    arguments (hitMultiple, ringIdx) read as the model's predicate [isMulti]: splitRing is NOT tied to the source
-    (its ordered-map stack walk and Go map of complete rings are hand-modelled, held by the correspondence only). *)
+    It calls the REGENERATED kmpDeduplicate, asPointOrLine and splitRing (gen_splitRing of gen/SplitWalkGen.v, tied to
+    the model by C06_source_tie_split_ring at the end of this file), the arguments (hitMultiple, ringIdx) of splitRing
+    read as the model's predicate [isMulti]. *)
 Theorem C06_source_tie_cleanup_new_ring : forall newRing isOuter isMulti,
   gen_cleanupNewRing newRing isOuter isMulti = cleanupNewRing newRing isOuter isMulti.
 Proof. exact gen_cleanupNewRing_spec. Qed.
@@ -551,4 +551,52 @@ Example C06_source_tie_dedupe_inners_outers_example :
   gen_dedupeInnersOuters [[]; a] [[]] = Err IndexOutOfRange /\
   gen_CountVals [(0, true); (2, true); (3, true); (4, false)] true = Ok 3 /\
   gen_DeleteFromSliceByIndex [a; b; a'] [(3, true); (1, false)] 1 = Ok [b].
+Proof. vm_compute. repeat split; reflexivity. Qed.
+
+From Texel Require Import Snap.ProofsGenSplitWalk.
+From Texel.Gen Require Import SplitWalkGen.
+
+(** ** tie G2 for the WHOLE of splitRing (completes C06_source_tie_split_ring_partial above): the function REGENERATED
+    from snap.go on this run — its first part, the walk over the ring (gen/SplitWalkGen.v, translator/splitwalk.go),
+    followed by the regenerated last part gen_splitRing_tail (gen/SplitTailGen.v) — is the model's [splitRing], for
+    EVERY ring, [isOuter], predicate [isMulti] and every outcome (value, Err IndexOutOfRange for an empty ring,
+    Err PartialRingsOnStack).
+    REGENERATED from the AST: every statement and all control flow of the walk (the range loop over checkRing with its
+    index and [continue]; which key of the stack is set / deleted and which key of completeRings is assigned, when and
+    with what; [checkRing := append(ring, ring[0])]; the closing tests [tempRing[0] == tempRing[len(tempRing)-1]] and
+    the slices [tempRing[:len(tempRing)-1]], [tempRing[1:]] as [idx] / [slice] = Go's run-time panics; the inner loop
+    [for r := stack.Newest().Prev(); r != nil; r = r.Prev()] with both [break]s; the nested range loop deleting the
+    prepended partial rings; [partialRingIdx++]; the final [stack.Len() > 0] test), each range-loop body being a
+    definition gen_splitRing_range<N>.
+    STAYS MODELLED (trusted micro-models, used only after the translator has checked the AST for the exact call shape;
+    listed at the top of gen/SplitWalkGen.v and Snap/ProofsGenSplitWalk.v):
+    - the ordered map (github.com/wk8/go-ordered-map/v2): [orderedmap.New[int, [][2]float64]()] = the empty [stack];
+      [Set] / [Delete] / [Value] / [Len] / [Get] = [st_set] / [st_del] / [st_value] / [zlen] / [st_get]; the
+      [Newest().Prev()] iteration = the entries older than the newest one, newer first (a nil [Newest()] is written
+      Err IndexOutOfRange; the theorem shows it does not arise), the body changing the map only right before [break];
+    - the Go map completeRings = its entries in increasing key order, [C[k] = v] = [insert_sorted k v C];
+    - [verticesHitMultiple(hitMultiple, ringIdx)] + map lookup = the model's predicate parameter [isMulti];
+    - [panicPartialRingsRemainingOnStack] = Err PartialRingsOnStack; [append] / [make(.., 0, n)] as values: that
+      [append] writes into spare capacity shared between stack values (slice ALIASING) is outside the translation —
+      the model is immutable; it is held by the run-time correspondence only;
+    - in the last part: [windingOrderIsCorrect], [maps.Keys] + [sort.Ints], [slices.Reverse] (see the partial tie).
+    The body of verticesHitMultiple itself is not tied (any set of vertices is covered: [isMulti] is universally
+    quantified).  gen_cleanupNewRing (C06_source_tie_cleanup_new_ring) calls this gen_splitRing. *)
+Theorem C06_source_tie_split_ring : forall r isOuter isMulti,
+  gen_splitRing r isOuter isMulti = splitRing r isOuter isMulti.
+Proof. exact gen_splitRing_spec. Qed.
+Print Assumptions C06_source_tie_split_ring.
+
+(** the regenerated code runs: a figure of eight through the doubly hit vertex (2,2) is split into its two loops (in
+    the order of their keys); walked from another start the loop that closes first gets the smaller key; a ring with a
+    spike to a doubly hit vertex gives a line; an empty ring is the index panic *)
+Example C06_source_tie_split_ring_example :
+  let multi (l : list pt) (p : pt) := mem_pt p l in
+  gen_splitRing [(0,0); (2,0); (2,2); (4,2); (4,4); (2,4); (2,2); (0,2)] true (multi [(2,2)])
+    = Ok (mkSets [[(0,0); (2,0); (2,2); (0,2)]; [(2,2); (4,2); (4,4); (2,4)]] [] []) /\
+  gen_splitRing [(4,2); (4,4); (2,4); (2,2); (0,2); (0,0); (2,0); (2,2)] false (multi [(2,2)])
+    = Ok (mkSets [] [[(2,2); (2,4); (4,4); (4,2)]; [(2,0); (0,0); (0,2); (2,2)]] []) /\
+  gen_splitRing [(0,0); (4,0); (4,4); (6,6); (4,4); (0,4)] true (multi [(4,4)])
+    = Ok (mkSets [[(0,0); (4,0); (4,4); (0,4)]] [] [[(4,4); (6,6)]]) /\
+  gen_splitRing [] true (multi []) = Err IndexOutOfRange.
 Proof. vm_compute. repeat split; reflexivity. Qed.
